@@ -498,6 +498,23 @@ class Exec:
     def bounds(self, st, x):
         """syntactic unsigned interval [lo, hi] that the path condition imposes on the VARIABLE x (None if x is not a variable);
         sound by construction: only conjuncts of the form x <=/>=/</>/== numeral are read, everything else is ignored"""
+        if is_z3(x) and z3.is_bv(x) and not (z3.is_const(x) and x.decl().kind() == z3.Z3_OP_UNINTERPRETED):
+            # a term built from variables: numeral, ite(c, a, b) -> hull of both sides, a + numeral -> shifted (if it cannot wrap)
+            full = (1 << x.size()) - 1
+            if z3.is_bv_value(x):
+                return x.as_long(), x.as_long()
+            k = x.decl().kind()
+            if k == z3.Z3_OP_ITE:
+                a, b = self.bounds(st, x.arg(1)), self.bounds(st, x.arg(2))
+                if a is None or b is None:
+                    return None
+                return min(a[0], b[0]), max(a[1], b[1])
+            if k == z3.Z3_OP_BADD and x.num_args() == 2:
+                a, b = self.bounds(st, x.arg(0)), self.bounds(st, x.arg(1))
+                if a is None or b is None or a[1] + b[1] > full:
+                    return None
+                return a[0] + b[0], a[1] + b[1]
+            return None
         if not (is_z3(x) and z3.is_const(x) and x.decl().kind() == z3.Z3_OP_UNINTERPRETED and z3.is_bv(x)):
             return None
         lo, hi = 0, (1 << x.size()) - 1
